@@ -202,7 +202,8 @@ Proof.
     assert (E : (num =? 31) = false) by lia. rewrite E. cbn [bind].
     replace ((cls * 64 + c + num) / 64) with cls by lia.
     rewrite Htbl, Hcons by lia.
-    change (drop 1 (n2b (cls * 64 + c + num) :: pack_length len ++ rest)) with (pack_length len ++ rest).
+    replace (drop 1 (n2b (cls * 64 + c + num) :: pack_length len ++ rest)) with (pack_length len ++ rest)
+      by (symmetry; apply (drop_app_len [n2b (cls * 64 + c + num)]); reflexivity).
     rewrite read_length_part by exact Hlen. unfold nlen. cbn [length]. reflexivity.
   - cbn [app]. unfold read_header. fold c.
     rewrite b2n_n2b_small by lia.
